@@ -130,7 +130,7 @@ Proof.
           apply lex_ok_tok with (t := mkTok TDblDash s_dd pos); [reflexivity | reflexivity | discriminate |].
           apply IH. exact Hr. }
         destruct r2 as [|e r3]; [apply Hdd; cbn [length] in *; lia|].
-        destruct (Ascii.eqb e c_space) eqn:He; [apply Hdd; cbn [length] in *; lia|].
+        destruct (dd_end e) eqn:He; [apply Hdd; cbn [length] in *; lia|].
         destruct (isOkLongOpt e true) eqn:Hok; [|err_here].
         destruct (span (fun x => isOkLongOpt x false) r3) as [name r4] eqn:Hsp.
         destruct (span_eq _ _ _ _ Hsp) as [-> Hlr]. cbn [length] in Hlen. rewrite app_length in Hlen.
